@@ -219,16 +219,28 @@ impl DictT {
             _ => None,
         })
     }
+    // get the value of a key, resolving a chain of references: the
+    // value may be a reference to a reference.  There is no value if
+    // an identifier in the chain is not defined, or if the chain loops.
+    fn get_resolved<'a>(
+        &'a self, ctxt: &'a PDFObjContext, k: &[u8],
+    ) -> Option<&'a Rc<LocatedVal<PDFObjT>>> {
+        let mut lobj = self.get(k)?;
+        let mut visited = HashSet::new();
+        while let PDFObjT::Reference(r) = lobj.val() {
+            if !visited.insert(r.id()) {
+                return None
+            }
+            lobj = ctxt.lookup_obj(r.id())?;
+        }
+        Some(lobj)
+    }
     // get the resolved array value of a key
     pub fn get_resolved_array<'a>(
         &'a self, ctxt: &'a PDFObjContext, k: &[u8],
     ) -> Option<&'a ArrayT> {
-        self.get(k).and_then(|lobj| match lobj.val() {
+        self.get_resolved(ctxt, k).and_then(|lobj| match lobj.val() {
             PDFObjT::Array(a) => Some(a),
-            PDFObjT::Reference(r) => ctxt.lookup_obj(r.id()).and_then(|o| match o.val() {
-                PDFObjT::Array(a) => Some(a),
-                _ => None,
-            }),
             _ => None,
         })
     }
@@ -242,12 +254,8 @@ impl DictT {
     }
     // get the resolved dict value of a key
     pub fn get_resolved_dict<'a>(&'a self, ctxt: &'a PDFObjContext, k: &[u8]) -> Option<&'a DictT> {
-        self.get(k).and_then(|lobj| match lobj.val() {
+        self.get_resolved(ctxt, k).and_then(|lobj| match lobj.val() {
             PDFObjT::Dict(d) => Some(d),
-            PDFObjT::Reference(r) => ctxt.lookup_obj(r.id()).and_then(|o| match o.val() {
-                PDFObjT::Dict(d) => Some(d),
-                _ => None,
-            }),
             _ => None,
         })
     }
